@@ -1,2 +1,221 @@
-(* C17 - placeholder while the proofs are being built *)
-From Cobald Require Import model.LineProtocol.
+(* C17 - Monitoring output is well-formed and lossless.
+   Property theorems only; every one is closed by `exact` of a lemma in proofs/LineProtocolProofs.v
+   and followed by Print Assumptions.  Model + reference decoder: model/LineProtocol.v.
+
+   Strings are lists of code points and the theorems hold for ALL lists over N (a superset of the
+   unicode code points): commas, equals signs, spaces, single and double quotes, backslashes and
+   non-ASCII characters are not special-cased anywhere.  The domain `wf` (model/LineProtocol.v
+   `wfb`) excludes only what the line protocol cannot express:
+     line breaks; a trailing backslash in the measurement, a key or a tag value; a percent sign
+     in the measurement (python would %-format it); record keys that collide with LogRecord
+     attribute names without being whitelisted (format drops them); empty measurement / key /
+     tag value; a measurement starting with a hash sign (comment line); a record without any
+     field; None values and non-finite floats; a resolution that is not positive.
+   The Examples at the end show, on the model (which the correspondence run ties to the code),
+   that the exclusions are needed and that a backslash followed by a special character inside a
+   key does round-trip. *)
+From Coq Require Import ZArith NArith QArith Qround List Bool String Sorted.
+From Cobald Require Import model.LineProtocol proofs.LineProtocolProofs.
+Import ListNotations.
+Open Scope N_scope.
+
+(* --- the round trip: the formatter's output is exactly one newline-terminated line, and the
+       reference decoder reads back the measurement, the tags, the fields with values and types,
+       and the downsampled time in nanoseconds *)
+Theorem C17_roundtrip : forall cfg r, wf cfg r ->
+  exists body,
+    format cfg r = Ok (body ++ [10]) /\ ~ In 10 body
+    /\ lp_parse (body ++ [10])
+       = Some (r_name r, expected_tags cfg r, expected_fields cfg r, expected_time cfg r).
+Proof. exact roundtrip_full. Qed.
+Print Assumptions C17_roundtrip.
+
+(* --- the escape / unescape lemmas it rests on, stated on the code's own functions --- *)
+Theorem C17_unescape_escape_key : forall s rest, ok_key s = true -> starts_stop sp_key rest ->
+  scan sp_key (escape_key s ++ rest) = (s, rest).
+Proof. exact unescape_escape_key. Qed.
+Print Assumptions C17_unescape_escape_key.
+
+Theorem C17_unescape_escape_measurement : forall s rest, ok_key s = true -> starts_stop sp_name rest ->
+  scan sp_name (escape_name s ++ rest) = (s, rest).
+Proof. exact unescape_escape_name. Qed.
+Print Assumptions C17_unescape_escape_measurement.
+
+Theorem C17_unescape_escape_string : forall s rest, no_newline s = true ->
+  exists body, escape_string s = 34 :: body /\ scan_string (body ++ rest) = Some (s, rest).
+Proof. exact unescape_escape_string. Qed.
+Print Assumptions C17_unescape_escape_string.
+
+Theorem C17_field_value_roundtrip : forall v rest, ok_value v = true -> starts_value_end rest ->
+  parse_value (escape_field v ++ rest) = Some (fvalue_of v, rest).
+Proof. exact parse_value_ok. Qed.
+Print Assumptions C17_field_value_roundtrip.
+
+(* python's three chained str.replace calls are a one-pass character map (no replacement output is
+   touched by a later replace) *)
+Theorem C17_escape_key_one_pass : forall s, escape_key s = encode sp_key s.
+Proof. exact escape_key_encode. Qed.
+Print Assumptions C17_escape_key_one_pass.
+
+Theorem C17_escape_string_one_pass : forall s, escape_string s = 34 :: encode sp_str s ++ [34].
+Proof. exact escape_string_encode. Qed.
+Print Assumptions C17_escape_string_one_pass.
+
+(* integers (field values, the timestamp) are read back with their exact value *)
+Theorem C17_int_numeral_value : forall z, is_numeral (print_Z z) = true /\ numeral_int (print_Z z) = Some z.
+Proof. exact (fun z => conj (is_numeral_print_Z z) (numeral_int_print_Z z)). Qed.
+Print Assumptions C17_int_numeral_value.
+
+(* --- time: rounded DOWN to a multiple of the resolution, in nanoseconds --- *)
+Theorem C17_time_floor : forall (created : Q) (res : Z), (0 < res)%Z ->
+  let t := (Qfloor (created / inject_Z res) * res)%Z in
+  (exists k, t = (k * res)%Z) /\ (inject_Z t <= created)%Q /\ (created < inject_Z (t + res))%Q.
+Proof. exact time_floor. Qed.
+Print Assumptions C17_time_floor.
+
+Theorem C17_expected_time : forall cfg r,
+  expected_time cfg r = match c_res cfg with
+                        | Some res => Some (Qfloor (r_created r / inject_Z res) * res * 10 ^ 9)%Z
+                        | None => None
+                        end.
+Proof. exact expected_time_spec. Qed.
+Print Assumptions C17_expected_time.
+
+(* --- tags and fields: what the decoded maps contain, key by key --- *)
+Theorem C17_tags_lookup : forall cfg r k,
+  nodup_keys (r_data r) = true -> nodup_keys (default_tags (c_tags cfg)) = true ->
+  lookup k (expected_tags cfg r)
+  = if mem k (whitelist (c_tags cfg))
+    then match lookup k (r_data r) with
+         | Some v => Some (text_of v)
+         | None => option_map text_of (lookup k (default_tags (c_tags cfg)))
+         end
+    else None.
+Proof. exact tags_lookup. Qed.
+Print Assumptions C17_tags_lookup.
+
+Theorem C17_fields_lookup : forall cfg r k, nodup_keys (r_data r) = true ->
+  lookup k (expected_fields cfg r)
+  = if blacklisted (c_tags cfg) k then None else option_map fvalue_of (lookup k (r_data r)).
+Proof. exact fields_lookup. Qed.
+Print Assumptions C17_fields_lookup.
+
+Theorem C17_tags_and_fields_partition : forall cfg r k v,
+  nodup_keys (r_data r) = true -> nodup_keys (default_tags (c_tags cfg)) = true ->
+  lookup k (r_data r) = Some v ->
+  (mem k (whitelist (c_tags cfg)) = true ->
+     lookup k (expected_tags cfg r) = Some (text_of v) /\ lookup k (expected_fields cfg r) = None)
+  /\ (mem k (whitelist (c_tags cfg)) = false -> mem k RECORD_ATTRIBUTES = false ->
+     lookup k (expected_tags cfg r) = None /\ lookup k (expected_fields cfg r) = Some (fvalue_of v))
+  /\ (mem k (whitelist (c_tags cfg)) = false -> mem k RECORD_ATTRIBUTES = true ->
+     lookup k (expected_tags cfg r) = None /\ lookup k (expected_fields cfg r) = None).
+Proof. exact partition. Qed.
+Print Assumptions C17_tags_and_fields_partition.
+
+Theorem C17_absent_keys : forall cfg r k,
+  nodup_keys (r_data r) = true -> nodup_keys (default_tags (c_tags cfg)) = true ->
+  lookup k (r_data r) = None ->
+  lookup k (expected_tags cfg r) = option_map text_of (lookup k (default_tags (c_tags cfg)))
+  /\ lookup k (expected_fields cfg r) = None.
+Proof. exact partition_absent. Qed.
+Print Assumptions C17_absent_keys.
+
+Theorem C17_decoded_maps_canonical : forall cfg r,
+  nodup_keys (r_data r) = true -> nodup_keys (default_tags (c_tags cfg)) = true ->
+  Sorted key_le (expected_tags cfg r) /\ nodup_keys (expected_tags cfg r) = true
+  /\ Sorted key_le (expected_fields cfg r) /\ nodup_keys (expected_fields cfg r) = true.
+Proof. exact expected_canonical. Qed.
+Print Assumptions C17_decoded_maps_canonical.
+
+(* --- JSON: the emitted object is defaults < time (unless disabled) < message < data --- *)
+Theorem C17_json_merge : forall {V} (defaults : list (str * V)) time message data k,
+  nodup_keys data = true ->
+  lookup k (json_data defaults time message data)
+  = match lookup k data with
+    | Some v => Some v
+    | None =>
+        if str_eqb k k_message then Some message
+        else match (if str_eqb k k_time then time else None) with
+             | Some t => Some t
+             | None => lookup k defaults
+             end
+    end.
+Proof. exact @json_merge. Qed.
+Print Assumptions C17_json_merge.
+
+Theorem C17_json_keys : forall {V} (defaults : list (str * V)) time message data x,
+  In x (map fst (json_data defaults time message data)) <->
+  In x (map fst data) \/ x = k_message \/ (time <> None /\ x = k_time) \/ In x (map fst defaults).
+Proof. exact @json_keys. Qed.
+Print Assumptions C17_json_keys.
+
+Theorem C17_json_single_object : forall {V} (defaults : list (str * V)) time message data,
+  nodup_keys defaults = true -> nodup_keys (json_data defaults time message data) = true.
+Proof. exact @json_nodup. Qed.
+Print Assumptions C17_json_single_object.
+
+(* ------------------------------------------------------------------------------------------ *)
+(* non-vacuity and the edge cases, decided by computation on concrete records                  *)
+(* ------------------------------------------------------------------------------------------ *)
+Definition s := of_string.
+
+(* the domain is inhabited by a record using every special character, a backslash followed by a
+   special character inside a key and inside the measurement, default tags (string and numeric),
+   a record value overriding a default, a non-string record value used as a tag, all value types *)
+Definition ex_cfg : config :=
+  mkCfg (TagsMap [(s "lat", VInt 49); (s "s p", VStr (s "x y,z=")); (s "b", VFloat (s "0.5"))]) (Some 10%Z).
+Definition ex_rec : record :=
+  mkRec (s "m e\,a=s'""") [(s "a\,b", VStr (s "v\")); (s "k=", VFloat (s "1.5e-07")); (s "b", VBool true);
+                           (s "lat", VStr (s "q=")); (s "i'", VInt (-3)); (s "q""", VStr (s "it's ""x\"""))] (2469 # 2).
+
+Example C17_hypotheses_satisfiable :
+  wf ex_cfg ex_rec
+  /\ nodup_keys (r_data ex_rec) = true /\ nodup_keys (default_tags (c_tags ex_cfg)) = true
+  /\ ok_key (s "a\,b") = true /\ starts_stop sp_key [61] /\ starts_stop sp_name [44] /\ starts_value_end [32]
+  /\ List.length (expected_tags ex_cfg ex_rec) = 3%nat /\ List.length (expected_fields ex_cfg ex_rec) = 4%nat
+  /\ expected_time ex_cfg ex_rec = Some 1230000000000%Z.
+Proof. vm_compute. repeat split; auto. Qed.
+
+(* a key containing a backslash FOLLOWED BY a special character round-trips:  a\,b  is emitted as
+   a\\,b  =  a, literal backslash (the next character is a backslash, not special), escaped comma *)
+Example C17_backslash_before_special_roundtrips :
+  escape_key (s "a\,b") = s "a\\,b"
+  /\ scan sp_key (escape_key (s "a\,b") ++ [61]) = (s "a\,b", [61]).
+Proof. vm_compute. split; reflexivity. Qed.
+
+(* the exclusions are needed (the protocol cannot express these; the model, tied to the code by the
+   correspondence run, shows what is emitted and how a reference decoder reads it) *)
+Example C17_trailing_backslash_not_expressible :
+  (* tag value  v\  : the backslash swallows the delimiter that follows *)
+  let cfg := mkCfg (TagsIter [s "t"]) None in
+  let r := mkRec (s "m") [(s "t", VStr (s "v\")); (s "f", VInt 1)] 0 in
+  wfb cfg r = false
+  /\ format cfg r = Ok (s "m,t=v\ f=1" ++ [10])
+  /\ lp_parse (s "m,t=v\ f=1" ++ [10]) = None.
+Proof. vm_compute. repeat split; reflexivity. Qed.
+
+Example C17_no_fields_not_a_point :
+  (* logger.info("m", {}) : the line has no field section and is not a point *)
+  let cfg := mkCfg TagsNone None in
+  let r := mkRec (s "m") [] 0 in
+  wfb cfg r = false /\ format cfg r = Ok (s "m " ++ [10]) /\ lp_parse (s "m " ++ [10]) = None.
+Proof. vm_compute. repeat split; reflexivity. Qed.
+
+Example C17_colliding_key_is_dropped :
+  (* a record key named like a LogRecord attribute is neither a tag nor a field *)
+  let cfg := mkCfg TagsNone None in
+  let r := mkRec (s "m") [(s "name", VInt 5); (s "f", VInt 1)] 0 in
+  wfb cfg r = false /\ format cfg r = Ok (s "m f=1" ++ [10]).
+Proof. vm_compute. split; reflexivity. Qed.
+
+Example C17_error_outcomes_explicit :
+  format (mkCfg TagsNone None) (mkRec (s "m") [(s "a", VNone)] 0) = Raised AssertNoneValue
+  /\ format (mkCfg TagsNone (Some 0%Z)) (mkRec (s "m") [(s "a", VInt 1)] 0) = Raised ZeroDivision.
+Proof. vm_compute. split; reflexivity. Qed.
+
+Example C17_json_merge_example :
+  let d := json_data [(s "message", 1%nat); (s "time", 2%nat); (s "z", 3%nat)] (Some 4%nat) 5%nat
+                     [(s "z", 6%nat); (s "a", 7%nat)] in
+  lookup (s "message") d = Some 5%nat /\ lookup (s "time") d = Some 4%nat
+  /\ lookup (s "z") d = Some 6%nat /\ lookup (s "a") d = Some 7%nat /\ List.length d = 4%nat.
+Proof. vm_compute. repeat split; reflexivity. Qed.
